@@ -71,11 +71,16 @@ Theorem C11_accepted_only_if : forall ev sufs (m : smap) tm comps,
   acyclic (edge (inc_succ_pinned (ev_prefixes ev) m)).
 Proof. exact accepted_only_if. Qed.
 
-(* termination.  FALSE for the faithful model of the pinned code (D10): the set
+(* termination.  The render recursion modelled is the one of the CURRENT VM (D9 repaired:
+   an include starts from the root ancestor's main chunk of the included template, under the
+   included template's lineage).  With the finalize of the PINNED commit (`ev_pinned`: the
+   include walk follows a template's own include edges only, no block-lineage check) the
+   statement is FALSE (D10): the set
      A = {% block y %}{% include "B" %}{% endblock %}
      B = {% extends "A" %}{% block y %}{{ super() }}{% endblock %}
    is accepted and render("A") recurses without bound (the model runs out of the fuel that is
-   proved sufficient below). *)
+   proved sufficient below; the pinned VM, whose include ran B's own chunk, aborted on it just
+   the same: corpus/C11/D10-include-through-super.json). *)
 Definition ev_pinned : env :=
   {| ev_prefixes := []; ev_filters := []; ev_tests := []; ev_funcs := [];
      ev_fix_d10 := false; ev_fix_d13 := false |}.
@@ -108,8 +113,8 @@ Proof. vm_compute. reflexivity. Qed.
    reached again through super(); no include involved
      base = {% block a %}{% block b %}{% endblock %}{% endblock %}
      kid  = {% extends "base" %}{% block b %}{% block a %}{{ super() }}{% endblock %}{% endblock %}
-   is accepted by the pinned code AND by the code with only the D10 repair, and render("kid")
-   recurses without bound *)
+   is accepted by the pinned finalize AND by the one with only the D10 repair (`ev_d10`), and
+   render("kid") recurses without bound *)
 Definition nBase : name := [98%N].
 Definition nKid : name := [107%N].
 Definition bA : name := [97%N].
@@ -133,8 +138,8 @@ Theorem C11_d13_set_rejected_after_repair :
 Proof. vm_compute. reflexivity. Qed.
 
 (* With the D10 repair alone: every accepted set renders with bounded recursion -- the model of
-   the render recursion (render -> root ancestor's main chunk; include -> the included
-   template's OWN main chunk; RenderBlock -> lineage[0]; super() -> one level up; component
+   the render recursion (render and include alike -> the root ancestor's main chunk under the
+   template's own lineage; RenderBlock -> lineage[0]; super() -> one level up; component
    call -> one level deeper, cut at 20) never runs out of `render_fuel s` -- provided no
    template's block lineage nests blocks cyclically (`blocks_acyclic`, decidable). *)
 Theorem C11_accepted_renders_finitely_modulo_block_nesting : forall ev sufs (m : smap),
